@@ -310,6 +310,30 @@ class SymBackend(BackendBase):
 
         return at
 
+    def order_list(self, name, length, lo, hi):
+        """arbitrary (possibly repeating, unordered) list of ints in [lo, hi): a display order
+        of signed indexes"""
+        length, lo, hi = raw(length), raw(lo), raw(hi)
+        if isinstance(length, int):
+            vals = [z3.Int("%s[%d]" % (name, k)) for k in range(length)]
+            for v in vals:
+                self.c.assume(v >= zi(lo), v < zi(hi))
+            s = SIdx(length, symnp._list_elem(vals, "i"), name)
+            self.ingredients[name] = ("idx", vals)
+            return s
+        f = z3.Function(name, z3.IntSort(), z3.IntSort())
+        k = z3.Int(name + "!q")
+        self.c.assume(z3.ForAll([k], z3.And(f(k) >= zi(lo), f(k) < zi(hi))))
+        s = SIdx(length, lambda q: f(zi(q)), name)
+        self.ingredients[name] = ("idxP", f, length)
+        return s
+
+    def cut(self, obj, name, value):
+        """modular cut: bind the (lazy) attribute `name` of the real object to its callee
+        contract's result instead of evaluating the callee"""
+        obj.__dict__[name] = value
+        return value
+
     def seq(self, n, at, label="seq"):
         n = raw(n)
         if isinstance(n, int):
@@ -603,6 +627,13 @@ class ConcreteBackend(BackendBase):
         lists = [self.np.array(self.values["%s[%d]" % (name, s)], dtype=int) for s in range(int(count))]
         return lambda s: lists[s]
 
+    def order_list(self, name, length, lo, hi):
+        return self.np.array(self.values[name], dtype=int)
+
+    def cut(self, obj, name, value):
+        obj.__dict__[name] = value
+        return value
+
     def seq(self, n, at, label="seq"):
         return [at(i) for i in range(int(n))]
 
@@ -619,7 +650,10 @@ class ConcreteBackend(BackendBase):
     def rd(self, t, *idx):
         if any(i is None for i in idx):
             return self.np.float64("nan")  # read through a non-existent list entry (guarded in specs)
-        return self.np.float64(t[tuple(int(i) for i in idx)])
+        idx = tuple(int(i) for i in idx)
+        if any(not (0 <= i < n) for i, n in zip(idx, self.np.shape(t))):
+            return self.np.float64("nan")  # out-of-range read in a not-taken spec branch
+        return self.np.float64(t[idx])
 
     def rd_bool(self, t, *idx):
         return bool(t[tuple(int(i) for i in idx)])
@@ -845,3 +879,11 @@ class RandomConcreteBackend(ConcreteBackend):
             ln = self.size("%s.%s[%d]" % (name, lengths_name, s))
             lists.append(self.idx_list("%s[%d]" % (name, s), ln, upper))
         return lambda s: lists[s]
+
+    def order_list(self, name, length, lo, hi):
+        lo, hi = int(lo), int(hi)
+        if hi <= lo and int(length) > 0:
+            raise SkipInput()
+        v = [self.rnd.randrange(lo, hi) for _ in range(int(length))]
+        self.values[name] = v
+        return self.np.array(v, dtype=int)
